@@ -990,7 +990,31 @@ def rule_nonetruth(ctx):
     yield from common.rule_nonetruth(ctx, "C14.NONETRUTH", C14_FILES)
 
 
+def rule_temporole(ctx):
+    """tempo.validate checks the reference tempi as a reference (at least one positive tempo) and the estimated tempi
+    as an estimate: two zero estimates are a valid, scorable answer."""
+    R = "C14.TEMPOROLE"
+    f = ctx.program.func("tempo.validate", R)
+    s = ctx.S.get(f.qual)
+    g = ctx.program.func("tempo.validate_tempi", R)
+    calls = [c for c in s.calls() if c.callee == "tempo.validate_tempi"]
+    need(len(calls) >= 2, R, "tempo.validate: the two validate_tempi calls were not found")
+    okd, dflt = g.default_value("reference")
+    seen = {}
+    for c in calls:
+        a0 = c.args[0] if c.args else None
+        who = a0.a[0] if a0 is not None and a0.op == "param" else None
+        flag = dict(c.kw).get("reference", c.args[1] if len(c.args) > 1 else (tm.const(dflt) if okd else None))
+        seen[who] = flag
+    for who, want in (("reference_tempi", True), ("estimated_tempi", False)):
+        flag = seen.get(who)
+        good = flag is not None and tm.is_const(flag, want)
+        yield ob(R, f, "tempo.validate:%s" % who, good, "%s is validated with reference=%s" % (who, want) if good else "%s is validated with reference=%s: %s" % (who, tm.show(flag, 2) if flag is not None else "?", "an all-zero estimate is rejected although it is a valid (wrong) answer" if want is False else "an all-zero reference is accepted"))
+
+
 RULES = [
+    ("C14.TEMPOROLE", 2, rule_temporole),
+    ("C14.TABLES", 40, common.shared("c10", "rule_tables", "C14.TABLES")),
     ("C14.EXTNAMES", 100, rule_extnames),
     ("C14.FORMATSAFE", 15, rule_formatsafe),
     ("C14.NONETRUTH", 10, rule_nonetruth),
